@@ -166,11 +166,12 @@ Proof.
     injection H as H0 H. f_equal; auto.
 Qed.
 
-Lemma encode_inj e a b :
+Lemma encode_inj e a b : e <> EOther ->
   (e = EHash -> hash_safe a = true /\ hash_safe b = true) -> encode e a = encode e b -> a = b.
 Proof.
-  destruct e; simpl; intros S H.
+  destruct e; simpl; intros NO S H.
   - destruct (S eq_refl). apply pyhash_inj; auto.
+  - congruence.
   - congruence.
 Qed.
 
@@ -231,7 +232,8 @@ Proof.
   apply assoc_enc_in in E.
   pose proof (map_eq_in _ _ _ _ H E) as HE. simpl in HE.
   apply (encode_inj e); auto.
-  intros ->. destruct t; try discriminate; split; eapply has_ty_safe; eauto; discriminate.
+  - intros ->. discriminate.
+  - intros ->. destruct t; try discriminate; split; eapply has_ty_safe; eauto; discriminate.
 Qed.
 
 Lemma covers_lookup T c : covers T = true -> class_ok (tlookup T c) = true.
@@ -661,3 +663,124 @@ Proof.
     rewrite !R. reflexivity. }
   exact IH.
 Qed.
+
+(* ------------------------------------------------------------------ *)
+(* histories of add / hash / compile on form objects with a memoised hash *)
+
+Lemma Forall_firstn_ {A} (P : A -> Prop) i l : Forall P l -> Forall P (firstn i l).
+Proof. intros F. rewrite <- (firstn_skipn i l) in F. apply Forall_app in F. tauto. Qed.
+Lemma Forall_skipn_ {A} (P : A -> Prop) i l : Forall P l -> Forall P (skipn i l).
+Proof. intros F. rewrite <- (firstn_skipn i l) in F. apply Forall_app in F. tauto. Qed.
+
+Lemma Forall_upd {A} (P : A -> Prop) i x l : Forall P l -> P x -> Forall P (upd i x l).
+Proof.
+  intros F Px. unfold upd. apply Forall_app. split.
+  - apply Forall_firstn_; auto.
+  - constructor; auto. apply Forall_skipn_; auto.
+Qed.
+
+Lemma nth_error_Forall {A} (P : A -> Prop) l i x : Forall P l -> nth_error l i = Some x -> P x.
+Proof. intros F H. rewrite Forall_forall in F. apply F. eapply nth_error_In; eauto. Qed.
+
+Lemma wf_add_expr T f e : wf_form T f = true -> well_typed T e = true -> wf_form T (add_expr f e) = true.
+Proof.
+  unfold wf_form, add_expr; cbn [f_dim f_arity f_vec f_bfs f_inputs f_vars f_exprs]. intros W We.
+  rewrite forallb_app. cbn [forallb]. rewrite We. cbn [andb]. rewrite andb_true_r. exact W.
+Qed.
+
+Section HistoryProofs.
+  Variable T : table.
+  Variable C : Type.
+  Variable gen : bool -> form -> C.
+  Hypothesis CV : covers T = true.
+
+  Let build := fun r : form * bool => gen (snd r) (strip_form T (fst r)).
+  Let okr := fun r : form * bool => wf_form T (fst r) = true.
+  Let cinv := inv (hval * bool) (form * bool) C keq1 (keyof1 T) build okr.
+
+  (* an object is consistent when its memoised hash (if any) is the key of its current content *)
+  Definition obj_ok (o : obj) : Prop :=
+    wf_form T (o_form o) = true /\ (forall k, o_memo o = Some k -> k = form_key T (o_form o)).
+
+  Definition hinv (st : hstate C) : Prop := cinv (fst st) /\ Forall obj_ok (snd st).
+
+  Definition op_ok (o : op) : Prop := match o with OAdd _ e => well_typed T e = true | _ => True end.
+
+  Lemma key_sound1 : forall a b, okr a -> okr b -> keyof1 T a = keyof1 T b -> build a = build b.
+  Proof.
+    intros [f o] [f' o'] Wf Wg E. unfold keyof1, okr in *. cbn [fst snd] in *.
+    assert (E1 : form_key T f = form_key T f') by congruence.
+    assert (E2 : o = o') by congruence. subst o'.
+    unfold build; cbn [fst snd]. f_equal. apply form_key_separates_l; auto.
+  Qed.
+
+  Lemma obj_hash_ok o : obj_ok o ->
+    obj_ok (fst (obj_hash T o)) /\ snd (obj_hash T o) = form_key T (o_form o)
+    /\ o_form (fst (obj_hash T o)) = o_form o /\ o_memo (fst (obj_hash T o)) = Some (form_key T (o_form o)).
+  Proof.
+    intros [W M]. unfold obj_hash. destruct (o_memo o) as [k|] eqn:E; cbn [fst snd o_form o_memo].
+    - assert (Hk := M k eq_refl). subst k. repeat split; auto. intros k0 H. congruence.
+    - repeat split; auto. cbn [o_memo o_form]. intros k H. congruence.
+  Qed.
+
+  (* with the guard `self.__hash is not None` every step preserves the invariant and every class
+     handed out is the one of the object's current content *)
+  Lemma hstep_good st o : hinv st -> op_ok o ->
+    hinv (fst (hstep GHash T C gen st o)) /\ good_outcome T C gen st o (snd (hstep GHash T C gen st o)).
+  Proof.
+    destruct st as [cache objs]. intros [CI OI] Oo. simpl in CI, OI.
+    destruct o as [i e|i|i od]; simpl.
+    - destruct (nth_error objs i) as [ob|] eqn:N; simpl; [|split; [split|]; auto].
+      pose proof (nth_error_Forall _ _ _ _ OI N) as [W M].
+      unfold blocked. destruct (o_memo ob) as [k|] eqn:E; simpl; [split; [split|]; auto|].
+      split; auto. split; auto. simpl. apply Forall_upd; auto.
+      split; simpl.
+      + apply wf_add_expr; auto.
+      + intros k H. congruence.
+    - destruct (nth_error objs i) as [ob|] eqn:N; simpl; [|split; [split|]; auto].
+      pose proof (nth_error_Forall _ _ _ _ OI N) as OK.
+      destruct (obj_hash_ok ob OK) as [OK' _].
+      destruct (obj_hash T ob) as [ob' k]; simpl in *. split; auto. split; auto. simpl. apply Forall_upd; auto.
+    - destruct (nth_error objs i) as [ob|] eqn:N; simpl; [|split; [split|]; auto].
+      pose proof (nth_error_Forall _ _ _ _ OI N) as OK.
+      destruct (obj_hash_ok ob OK) as [OK' [Hk [Hf Hm]]].
+      destruct (obj_hash T ob) as [ob' k]; simpl in *. subst k.
+      destruct OK as [W M].
+      destruct (mlookup (hval * bool) C keq1 (form_key T (o_form ob), od) cache) as [c|] eqn:L; simpl.
+      + split; [split; auto; simpl; apply Forall_upd; auto|].
+        exists ob. split; auto.
+        apply (CI (o_form ob, od) c); auto.
+      + destruct (o_final ob'); simpl.
+        * split; auto. split; auto. simpl. apply Forall_upd; auto.
+        * split.
+          -- split; simpl.
+             ++ unfold cinv. rewrite <- Hf.
+                apply (inv_cons _ _ _ keq1 (keyof1 T) build keq1_spec okr key_sound1 cache (o_form ob', od)); auto.
+                unfold okr; simpl. rewrite Hf. exact W.
+             ++ apply Forall_upd; auto.
+          -- exists ob. split; auto. rewrite Hf. reflexivity.
+  Qed.
+
+  Lemma hist_returns_requested_l : forall ops st, hinv st -> Forall op_ok ops ->
+    hrun_good GHash T C gen st ops.
+  Proof.
+    induction ops as [|o ops IH]; intros st I F; simpl; auto.
+    inversion F as [|? ? Oo F']; subst.
+    destruct (hstep_good st o I Oo) as [I' G].
+    destruct (hstep GHash T C gen st o) as [st' r]. simpl in *. split; auto.
+  Qed.
+
+  (* fresh objects over a cache pre-seeded with fresh pairs *)
+  Lemma hist_from_fresh_l : forall seed forms ops,
+    (forall r c, In (r, c) seed -> okr r /\ c = build r) ->
+    Forall (fun f => wf_form T f = true) forms -> Forall op_ok ops ->
+    hrun_good GHash T C gen
+      (preseed _ _ _ (keyof1 T) seed, map (fun f => mk_obj f None false) forms) ops.
+  Proof.
+    intros seed forms ops HS HF HO. apply hist_returns_requested_l; auto.
+    split; simpl.
+    - apply (preseed_inv _ _ _ keq1 (keyof1 T) build keq1_spec okr key_sound1). exact HS.
+    - apply Forall_forall. intros o I. apply in_map_iff in I as [f [<- If]].
+      rewrite Forall_forall in HF. split; simpl; auto. intros k H. discriminate.
+  Qed.
+End HistoryProofs.
